@@ -32,7 +32,17 @@ def main(argv):
         fn = getattr(mod, "replay", None)
         if fn is None:
             from verif.tvjob import replay_file as fn
-        still = fn(rec)
+        try:
+            still = fn(rec)
+        except Exception as e:  # noqa
+            if "recompilation for replay failed" in str(e) or "recompilation failed" in str(e):
+                # the recorded program is no longer accepted by the compiler: the recorded behaviour cannot occur
+                print("does not reproduce on the current tree (the program no longer compiles: %s)" % str(e)[:120])
+                return 0
+            import traceback
+            traceback.print_exc()
+            print("HARNESS-ERROR replay failed: %s: %s" % (type(e).__name__, e))
+            return 2
         print("REPRODUCES" if still else "does not reproduce on the current tree")
         return 1 if still else 0
     try:
